@@ -85,10 +85,13 @@ static void s_op_subjects(char **t, int n) {
         s_drop_list(slot);
         struct aws_log_subject_info *arr = malloc(count * sizeof(*arr)); /* exact size: red zone right behind entry count-1 */
         for (size_t i = 0; i < count; ++i) {
-            size_t len;
-            uint8_t *name = hc_hex_decode(t[2 + i], &len);
-            name = realloc(name, len + 1);
-            name[len] = 0;
+            uint8_t *name = NULL; /* the token NULL: an entry whose subject_name pointer is NULL */
+            if (strcmp(t[2 + i], "NULL") != 0) {
+                size_t len;
+                name = hc_hex_decode(t[2 + i], &len);
+                name = realloc(name, len + 1);
+                name[len] = 0;
+            }
             arr[i].subject_id = (aws_log_subject_t)(slot * AWS_LOG_SUBJECT_STRIDE + i);
             arr[i].subject_name = (const char *)name;
             arr[i].subject_description = "harness subject";
